@@ -84,6 +84,8 @@ static int try_ok[16][MAXOBJ];
 static int in_try[16];
 static int once_runs[256], once_done[256];
 static int sleeps_in_lock[16]; static int in_lock_call[16]; static int in_lock_mu[16];
+/* C12: posts made and waits that succeeded on each test semaphore (conservation oracle at the end of an execution) */
+static int sem_posts_made[MAXOBJ]; static int sem_waits_ok[MAXOBJ]; static int sem_used[MAXOBJ];
 static int expect_stuck_ok;
 /* C10: history of the completed nsync_counter_add / nsync_counter_value calls per counter (invocation and response
    times in scheduler steps), checked for linearizability at the end of the execution */
@@ -432,10 +434,10 @@ static void run_prog (void *arg) {
 			vf_log ("call nsync_mu_unlock mu%d", o->a); shadow_rel (o->a, 1); vf_api_enter (); nsync_mu_unlock (&mus[o->a]); vf_api_leave (); vf_log ("ret nsync_mu_unlock -");
 			if (last) { vf_log ("reclaim mu%d", o->a); vf_kill (&mus[o->a]); memset (&mus[o->a], 0xdd, sizeof (mus[o->a])); }
 			break; }
-		case OP_SEM_P: vf_log ("call nsync_mu_semaphore_p sem%d", 100 + o->a); vf_api_enter (); nsync_mu_semaphore_p (&sems[o->a]); vf_api_leave (); vf_log ("ret nsync_mu_semaphore_p -"); break;
-		case OP_SEM_PD: { int r; nsync_time t = mk_deadline (o, dt, sizeof (dt)); vf_log ("call nsync_mu_semaphore_p_with_deadline sem%d %s", 100 + o->a, dt); vf_api_enter (); r = nsync_mu_semaphore_p_with_deadline (&sems[o->a], t); vf_api_leave (); vf_log ("ret nsync_mu_semaphore_p_with_deadline %s", r == 0 ? "0" : "ETIMEDOUT");
+		case OP_SEM_P: vf_log ("call nsync_mu_semaphore_p sem%d", 100 + o->a); sem_used[o->a] = 1; vf_api_enter (); nsync_mu_semaphore_p (&sems[o->a]); vf_api_leave (); sem_waits_ok[o->a]++; vf_log ("ret nsync_mu_semaphore_p -"); break;
+		case OP_SEM_PD: { int r; nsync_time t = mk_deadline (o, dt, sizeof (dt)); vf_log ("call nsync_mu_semaphore_p_with_deadline sem%d %s", 100 + o->a, dt); sem_used[o->a] = 1; vf_api_enter (); r = nsync_mu_semaphore_p_with_deadline (&sems[o->a], t); vf_api_leave (); if (r == 0) { sem_waits_ok[o->a]++; } vf_log ("ret nsync_mu_semaphore_p_with_deadline %s", r == 0 ? "0" : "ETIMEDOUT");
 				if (r != 0 && dl_ns (o) > vf_now ()) { vf_violation ("early-timeout", "semaphore timed out early"); } break; }
-		case OP_SEM_V: vf_log ("call nsync_mu_semaphore_v sem%d", 100 + o->a); vf_api_enter (); nsync_mu_semaphore_v (&sems[o->a]); vf_api_leave (); vf_log ("ret nsync_mu_semaphore_v -"); break;
+		case OP_SEM_V: vf_log ("call nsync_mu_semaphore_v sem%d", 100 + o->a); sem_used[o->a] = 1; vf_api_enter (); nsync_mu_semaphore_v (&sems[o->a]); vf_api_leave (); sem_posts_made[o->a]++; vf_log ("ret nsync_mu_semaphore_v -"); break;
 		default: break;
 		}
 	}
@@ -600,6 +602,14 @@ static int run_one (char **lines, int nlines, struct vf_config *cfg, FILE *out) 
 	if (preprog.n != 0) { run_prog (&preprog); }
 	for (i = 0; i != nprogs; i++) { vf_spawn (&run_prog, &progs[i]); }
 	outcome = vf_run ();
+	if (outcome == VF_OK && !sem_binary) { /* C12: every post is either still in the count or was consumed by a wait that reported success */
+		int k;
+		for (k = 0; k != MAXOBJ; k++) {
+			if (sem_used[k] && vf_sem_value (&sems[k]) != sem_posts_made[k] - sem_waits_ok[k]) {
+				vf_violation ("sem-conservation", "semaphore s%d: %d posts, %d successful waits, but the count is %d: a post was lost or consumed by a wait that reported a timeout", k, sem_posts_made[k], sem_waits_ok[k], vf_sem_value (&sems[k]));
+			}
+		}
+	}
 	if (outcome == VF_OK || outcome == VF_STUCK) { chist_check (); if (vf_violation_text () != NULL && outcome == VF_OK) { outcome = VF_ORACLE; } }
 	if (outcome == VF_STUCK) {
 		/* C06 at quiescence: nobody can move any more (so no critical section is in progress); a thread still
